@@ -19,6 +19,7 @@ ASSUMPTIONS = ["the transport accepts each write whole (short writes are C12's s
                "ping payload contents are ramps, all-zero and all-0xFF bytes; lengths 0..125 all covered"]
 
 PINGLENS = [0, 1, 2, 124, 125]
+RUN_WHERE = ["idle", "inside", "between"]
 VARIANTS = [("recv", False), ("recv_data", False), ("recv_data", True), ("recv_data_frame", False), ("recv_data_frame", True)]
 
 
@@ -40,6 +41,8 @@ def trace_variant(desc, tier):
     """With trace logging enabled: all ping lengths; the searches one level shallower, on fresh connections."""
     if desc["part"] == "lengths":
         return True
+    if desc["part"] == "runs":
+        return {"n": 300}
     if desc.get("prelude"):
         return False
     return {"depth": desc["depth"] - 1}
@@ -57,6 +60,8 @@ def tasks(tier, seed):
                 ts.append({"part": "inc", "v": vi, "first": first, "depth": dinc - 1, "prelude": prelude, "name": "inc/%s/%d/%d" % (prelude, vi, first)})
             ts.append({"part": "burst", "v": vi, "first": first, "depth": dburst, "name": "burst/%d/%d" % (vi, first)})
         ts.append({"part": "lengths", "v": vi, "name": "lengths/%d" % vi})
+        for where in RUN_WHERE:
+            ts.append({"part": "runs", "v": vi, "n": 1030 if tier == "quick" else 66000, "where": where, "name": "runs/%d/%s" % (vi, where)})
     return ts
 
 
@@ -195,8 +200,91 @@ def lengths_case(n, vi, content="ramp"):
         raise Violation({"kind": "data-disturbed-by-ping", "api": api}, "ping length %d: data delivered %r, expected %r" % (n, data, want))
 
 
+RUN_MIX = ["ping", "pingpong", "pong", "ping-lens"]
+RUN_DELIVERY = ["percall", "burst"]
+
+
+def runs_case(n, where, mix, delivery, vi):
+    """A long run of n control frames (a heartbeat-only connection, or a flood between / inside messages). Every ping is judged by
+    itself, so one run of n covers every shorter run as a prefix."""
+    lib.reset_globals()
+    env.install_urandom("counter")
+    seqf = []
+    if where == "inside":
+        seqf.append((R.TEXT, 0, b"a"))
+    elif where == "between":
+        seqf.append((R.TEXT, 1, b"a"))
+    for i in range(n):
+        if mix == "ping":
+            seqf.append((R.PING, 1, b"hb%d" % i))
+        elif mix == "pong":
+            seqf.append((R.PONG, 1, b"hb%d" % i))
+        elif mix == "pingpong":
+            seqf.append((R.PING if i % 2 == 0 else R.PONG, 1, b"hb%d" % i))
+        else:
+            seqf.append((R.PING, 1, bytes((i + j) % 256 for j in range(i % 126))))
+    if where == "inside":
+        seqf.append((R.CONT, 1, b"b"))
+    elif where == "between":
+        seqf.append((R.TEXT, 1, b"b"))
+    api, cf = VARIANTS[vi]
+    label = "run of %d control frames (%s), %s, delivered %s" % (n, mix, where, delivery)
+    sock = env.ScriptSock(b"", at_end="timeout")
+    ws = env.make_ws(sock)
+    frames = []
+    got = []
+
+    def one_call():
+        r = call(ws, vi)
+        if r[0] in ("protocol", "payload"):
+            check_log(sock, frames, label, vi)
+            raise Violation({"kind": "legal-sequence-rejected", "api": api}, "%s: after %d frames %r" % (label, len(frames), r))
+        if r[0] == "ret":
+            got.append(r[1])
+        return r[0]
+    for op, fin, payload in seqf:
+        sock.stream += R.encode(op, payload, fin=fin)
+        frames.append((op, payload, len(sock.stream)))
+        if delivery == "percall":
+            one_call()
+    for _ in range(len(seqf) + 2 if delivery == "burst" else 2):
+        if one_call() == "timeout":
+            break
+    if sock.cursor != len(sock.stream):
+        raise Violation({"kind": "burst-not-consumed", "api": api}, "%s: only %d of %d bytes consumed" % (label, sock.cursor, len(sock.stream)))
+    check_log(sock, frames, label, vi)
+    data = [g for g in got if not (isinstance(g, tuple) and g[0] in (R.PING, R.PONG))]
+    want = {"idle": [], "inside": ["ab"], "between": ["a", "b"]}[where]
+    if api != "recv":
+        want = [(R.TEXT, w.encode()) for w in want]
+    if data != want:
+        raise Violation({"kind": "data-disturbed-by-ping", "api": api}, "%s: data delivered %r, expected %r" % (label, data[:4], want))
+    if cf:
+        nctl = sum(1 for g in got if isinstance(g, tuple) and g[0] in (R.PING, R.PONG))
+        if nctl != n:
+            raise Violation({"kind": "control-frame-not-reported", "api": api}, "%s: %d of %d control frames reported to the caller" % (label, nctl, n))
+
+
 def run_task(desc):
     res = runner.new_result()
+    if desc["part"] == "runs":
+        for where in [desc["where"]]:
+            for mix in RUN_MIX:
+                for delivery in RUN_DELIVERY:
+                    rep = {"case": "runs", "n": desc["n"], "where": where, "mix": mix, "delivery": delivery, "v": desc["v"]}
+                    try:
+                        runs_case(desc["n"], where, mix, delivery, desc["v"])
+                    except Violation as v:
+                        runner.add_failure(res, v.sig, v.what, rep)
+                    except Exception as e:
+                        v = as_violation(e)
+                        if v is None:
+                            raise
+                        runner.add_failure(res, v.sig, v.what, rep)
+                    res["execs"] += 1
+                    res["complete"] += 1
+                    res["distinct"] += 1
+        return res
     if desc["part"] == "inc":
         h = IncHarness(desc)
         ex = Explorer(h, bound=None, merge=True)
@@ -259,7 +347,9 @@ def replay(rep):
         if rep["case"] == "inc":
             out, v, ch = replay_choices(IncHarness(rep["task"]), rep["choices"])
             return None if v is None else {"sig": v.sig, "what": v.what}
-        if rep["case"] == "burst":
+        if rep["case"] == "runs":
+            runs_case(rep["n"], rep["where"], rep["mix"], rep["delivery"], rep["v"])
+        elif rep["case"] == "burst":
             burst_case(tuple(rep["seq"]), rep["v"])
         else:
             lengths_case(rep["n"], rep["v"], rep.get("content", "ramp"))
